@@ -1333,6 +1333,12 @@ class TTNS(TTNBase):
         The new TTNS.
         """
         new = self.metacopy()
+        if np.allclose(self.coeff, other.coeff):
+            coeff1 = coeff2 = 1
+        else:
+            # different prefactors are folded into the root tensors (``Mps.add`` folds them too)
+            coeff1, coeff2 = self.coeff, other.coeff
+            new.coeff = 1
         for new_node, node1, node2 in zip(new, self, other):
             new_shape = []
             indices1 = []
@@ -1351,11 +1357,15 @@ class TTNS(TTNBase):
                     indices1.append(slice(0, dim1))
                     indices2.append(slice(dim1, dim1 + dim2))
             dtype = np.promote_types(node1.tensor.dtype, node2.tensor.dtype)
+            tensor1, tensor2 = node1.tensor, node2.tensor
+            if node1 is self.root:
+                tensor1, tensor2 = tensor1 * coeff1, tensor2 * coeff2
+                dtype = np.promote_types(tensor1.dtype, tensor2.dtype)
             new_node.tensor = np.zeros(new_shape, dtype=dtype)
             indices1 = tuple(indices1)
             indices2 = tuple(indices2)
-            new_node.tensor[indices1] = node1.tensor
-            new_node.tensor[indices2] = node2.tensor
+            new_node.tensor[indices1] = tensor1
+            new_node.tensor[indices2] = tensor2
             if node1 is self.root:
                 np.testing.assert_allclose(node1.qn, node2.qn)
                 new_node.qn = node1.qn.copy()
